@@ -320,6 +320,42 @@ func checkC15(c *Check) {
 					}
 				}
 			}
+			// tested, but not on every path: a branch taken before the test
+			// (an earlier case of a switch, an early return) leaves the
+			// function without the error having been looked at
+			if len(fl.Returned) > 0 && len(fl.Sent) == 0 && len(fl.Tested) > 0 && !inLoop(in) {
+				same := true
+				for _, ri := range fl.Returned {
+					if ri.Parent() != fn {
+						same = false
+					}
+				}
+				for _, iff := range fl.Tested {
+					if iff.Parent() != fn {
+						same = false
+					}
+				}
+				if same && nilKind(NewResolver(p), ev, in) != IsNil {
+					isLook := func(x ssa.Instruction) bool {
+						for _, iff := range fl.Tested {
+							if x == ssa.Instruction(iff) {
+								return true
+							}
+						}
+						for _, ri := range fl.Returned {
+							if ri == x {
+								return true
+							}
+						}
+						return false
+					}
+					other := searchAvoiding(fn, in, func(x ssa.Instruction) bool { return isReturn(x) && !isLook(x) && x.Block() != fn.Recover }, isLook)
+					if other != nil {
+						c.Bad("no-error-dropped", name, pos, "a path from the call reaches the return at "+p.InstrPos(other)+" before the error is tested (the test sits behind another condition, e.g. a later case of a switch): on that path the failure is dropped silently")
+						return
+					}
+				}
+			}
 			how := "returned"
 			if len(fl.Sent) > 0 && len(fl.Returned) == 0 {
 				how = "sent on an error channel"
